@@ -16,6 +16,23 @@ fn main() {
     if args[1] == "--child" {
         std::process::exit(props::xproc::child_main(&args[2]));
     }
+    if args[1] == "--fuzz-artifact" {
+        // mtverif --fuzz-artifact <target> <file>: decode a libFuzzer input through the tape and run the oracle on it
+        if args.len() < 4 {
+            usage();
+        }
+        let data = std::fs::read(&args[3]).expect("artifact");
+        match props::fuzzrun::run_target(&args[2], &data) {
+            Some((f, case)) => {
+                engine::say(&format!("{} — {}\ncase: {}", f.signature, f.message, case));
+                std::process::exit(1)
+            }
+            None => {
+                engine::say("no violation on this input");
+                std::process::exit(0)
+            }
+        }
+    }
     if args[1] == "--genstats" {
         mtverif::gen::genstats();
         return;
